@@ -72,8 +72,11 @@ class RuleError(Exception):
 #   ('discr', e) ('agg', kind, adt, variant, ((fname, e)...)) ('closure', def, (upvars...))
 #   ('upvar', name) ('unknown', text)
 
+RENDER_MAX = [14]
+
+
 def render(e, depth=0):
-    if depth > 14:
+    if depth > RENDER_MAX[0]:
         return "…"
     t = e[0]
     d = depth + 1
